@@ -398,8 +398,9 @@ Definition site_honoured (sv : server) (c : site) : bool :=
    timeouts (MaxHeaderBytes still 0); (2) makeHTTPServerWithHeaderLimit stores the merged header limit in it (when
    a site configures one); (3) when the listener serves TLS, HTTP/2 is on and the QUIC flag is set, the HTTP/3
    server is built by COPYING Addr, Handler, TLSConfig and MaxHeaderBytes from the TCP server as it is AT THAT
-   MOMENT.  Nothing else is copied: http3.Server has no read/header/write timeout fields, and its QUICConfig (whose
-   MaxIdleTimeout is HTTP/3's idle timeout) stays nil = the library default. *)
+   MOMENT, and (/repo a99152d) its QUICConfig carries MaxIdleTimeout = the TCP server's IdleTimeout when that is
+   positive (QUICConfig stays nil = the library default otherwise: quic-go reads 0 as "unset").  Nothing else is
+   copied: http3.Server has no read/header/write timeout fields. *)
 Record h3server := { h3_maxhdr : Z; h3_idle : Z (* 0: QUICConfig nil / MaxIdleTimeout unset *) }.
 Definition ns_timeouts (dflt : server) (group : list site) : server :=
   let a := fold_left tacc_step group tacc0 in
@@ -411,7 +412,8 @@ Definition ns_header (s : server) (group : list site) : server :=
   {| sv_read := sv_read s; sv_rhdr := sv_rhdr s; sv_write := sv_write s; sv_idle := sv_idle s;
      sv_maxhdr := if 0 <? m then m else sv_maxhdr s |}.
 Definition ns_h3 (s : server) (tls h2 quic : bool) : option h3server :=
-  if tls && h2 && quic then Some {| h3_maxhdr := sv_maxhdr s; h3_idle := 0 |} else None.
+  if tls && h2 && quic then Some {| h3_maxhdr := sv_maxhdr s; h3_idle := if 0 <? sv_idle s then sv_idle s else 0 |}
+  else None.
 Definition new_servers (dflt : server) (group : list site) (tls h2 quic : bool) : server * option h3server :=
   let s1 := ns_timeouts dflt group in
   let s2 := ns_header s1 group in
@@ -511,13 +513,13 @@ Definition listener_spec (dflt : server) (group : list site) (obs : server) : bo
         forallb (stricter_or_eq (sv_maxhdr obs)) hs) &&
   forallb (site_honoured obs) group.
 (* ... and about any further server of the same listener (HTTP/3): the same strictest header limit, and the
-   strictest idle timeout where a site configures one *)
-Definition h3_spec (group : list site) (mh idle : Z) : bool :=
+   strictest idle timeout where a site configures one, the default only where no site does (0 = none/unset) *)
+Definition h3_spec (dflt_idle : Z) (group : list site) (mh idle : Z) : bool :=
   let hs := map s_maxhdr group in
   (if forallb (Z.eqb 0) hs then mh =? 0
    else existsb (Z.eqb mh) hs && (0 <? mh) && forallb (stricter_or_eq mh) hs) &&
   match set_values (map s_idle group) with
-  | [] => true
+  | [] => idle =? (if 0 <? dflt_idle then dflt_idle else 0)
   | vs => existsb (Z.eqb idle) vs && forallb (stricter_or_eq idle) vs
   end.
 Definition server_eqb (a b : server) : bool :=
@@ -649,7 +651,7 @@ Definition judge (c : case) : N :=
                    | _, _ => false
                    end in
       let spec := listener_spec dflt group obs &&
-                  match oh3 with None => true | Some (mh, idle) => h3_spec group mh idle end in
+                  match oh3 with None => true | Some (mh, idle) => h3_spec (sv_idle dflt) group mh idle end in
       verdict agree spec
   | CSiteSeq kind limit reqs =>
       let k := match kind with 0%N => ProxyStream | 1%N => ProxyBuffered | _ => Fastcgi end in
